@@ -15,7 +15,7 @@ class Skip(Exception):
 
 
 class Ctx(object):
-    def __init__(self, prop, part, cfg, tier, seed, shard, nshards, outdir, skip=(), only=None):
+    def __init__(self, prop, part, cfg, tier, seed, shard, nshards, outdir, skip=(), only=None, skip_patterns=()):
         self.prop = prop
         self.part = part
         self.cfg = cfg
@@ -25,6 +25,8 @@ class Ctx(object):
         self.nshards = nshards
         self.outdir = outdir
         self.skip = set(skip)
+        self.skip_patterns = list(skip_patterns)
+        self._pat_cache = {}
         self.only = only
         h = hashlib.sha256(("%s|%s|%s|%d|%d" % (prop, part, cfg, seed, shard)).encode()).digest()
         self.rng = random.Random(int.from_bytes(h[:8], "big"))
@@ -72,6 +74,17 @@ class Ctx(object):
         if key in self.skip:
             self.skipped[key] = self.skipped.get(key, 0) + 1
             return False
+        if self.skip_patterns:
+            hit = self._pat_cache.get(key)
+            if hit is None:
+                import fnmatch
+                hit = any(fnmatch.fnmatchcase(key, p) for p in self.skip_patterns)
+                self._pat_cache[key] = hit
+            if hit:
+                self.info.setdefault("classes_not_sampled_known_fatal_elsewhere", {})
+                d = self.info["classes_not_sampled_known_fatal_elsewhere"]
+                d[key] = d.get(key, 0) + 1
+                return False
         if self.only is not None and key != self.only:
             return False
         self.cur_key = key
